@@ -115,6 +115,22 @@ Theorem c16_delay : forall (Smp : Type) (LEN : nat) (calls : list (list (list (l
 Proof. exact @delay_stream. Qed.
 Print Assumptions c16_delay.
 
+(* ... and when the owner of the graph replaces the node's buffer list between calls
+   (NodeData::buffers taken away, put back, resized): a channel's stream over the calls in
+   which it has both an input and an output buffer is still continuous; channels without
+   a buffer in a call are not advanced by it. *)
+Theorem c16_delay_varying : forall (Smp : Type) (LEN : nat)
+    (calls : list (list (list (list Smp)) * list (list Smp))) (rings : list (fixed Smp)),
+  Forall InvF rings ->
+  Forall (fun call => Forall (wfbs LEN) (fst call) /\ wfbs LEN (snd call)) calls ->
+  exists rings' outs, delay_calls_v rings calls = Ok (rings', outs) /\
+    Forall InvF rings' /\ length rings' = length rings /\
+    Forall2 (fun call o => length o = length (snd call)) calls outs /\
+    forall c r, nth_error rings c = Some r ->
+      fed_stream_v c calls outs = firstn (length (in_stream_v c calls)) (fq r ++ in_stream_v c calls).
+Proof. exact @delay_stream_v. Qed.
+Print Assumptions c16_delay_varying.
+
 (* Signal node, one call: exactly LEN frames are pulled, in order; frame j's channel ch is
    written to output[ch][j] for ch < min(CHANNELS, outputs); everything else is untouched;
    the inputs are ignored. *)
@@ -142,6 +158,22 @@ Theorem c16_signal_node : forall (Smp St : Type) (LEN : nat) (next : St -> list 
                       else nth2 out ch j.
 Proof. exact @signal_stream. Qed.
 Print Assumptions c16_signal_node.
+
+(* ... and with a different buffer list in every call (any numbers of buffers, ZERO
+   included): every call pulls exactly LEN frames, call k writes frames k*LEN .. onto the
+   buffers it was given. *)
+Theorem c16_signal_node_varying : forall (Smp St : Type) (LEN : nat) (next : St -> list Smp * St) (CH : nat),
+  (forall st, length (fst (next st)) = CH) ->
+  forall (outs : list (list (list Smp))) (st : St), Forall (wfbs LEN) outs ->
+  exists res, signal_calls_v LEN next CH outs st = Ok (sig_state next (length outs * LEN) st, res) /\
+    length res = length outs /\
+    forall k out o, nth_error outs k = Some out -> nth_error res k = Some o ->
+      length o = length out /\ wfbs LEN o /\
+      forall ch j, j < LEN ->
+        nth2 o ch j = if ch <? Nat.min CH (length out) then nth_error (sig_frame next (k * LEN + j) st) ch
+                      else nth2 out ch j.
+Proof. exact @signal_stream_v. Qed.
+Print Assumptions c16_signal_node_varying.
 
 (* GraphNode over any inner graph with a buffer lens: input j's buffers are zip-copied
    into inner node ids[j] (for j < min(#inputs, #ids); all other inner nodes untouched),
